@@ -1,0 +1,72 @@
+// Direct drivers for unexported state-machine code, used only by the /verif harness.
+// Compiled only with -tags verif; adds no behaviour and touches no existing line.
+
+//go:build verif && (!goexperiment.jsonv2 || !go1.25)
+
+package jsontext
+
+// VerifMachine drives a stateMachine directly.
+type VerifMachine struct{ m stateMachine }
+
+func NewVerifMachine() *VerifMachine  { v := &VerifMachine{}; v.m.reset(); return v }
+func (v *VerifMachine) Reset()        { v.m.reset() }
+func (v *VerifMachine) Depth() int    { return v.m.Depth() }
+func (v *VerifMachine) Length() int64 { return v.m.Last.Length() }
+func (v *VerifMachine) Last() uint64  { return uint64(v.m.Last) }
+func (v *VerifMachine) Stack() []uint64 {
+	s := make([]uint64, len(v.m.Stack))
+	for i, e := range v.m.Stack {
+		s[i] = uint64(e)
+	}
+	return s
+}
+func (v *VerifMachine) AppendLiteral() error     { return v.m.appendLiteral() }
+func (v *VerifMachine) AppendString() error      { return v.m.appendString() }
+func (v *VerifMachine) AppendNumber() error      { return v.m.appendNumber() }
+func (v *VerifMachine) PushObject() error        { return v.m.pushObject() }
+func (v *VerifMachine) PopObject() error         { return v.m.popObject() }
+func (v *VerifMachine) PushArray() error         { return v.m.pushArray() }
+func (v *VerifMachine) PopArray() error          { return v.m.popArray() }
+func (v *VerifMachine) NeedIndent(next Kind) int { return v.m.NeedIndent(next) }
+func (v *VerifMachine) NeedDelim(next Kind) byte { return v.m.needDelim(next) }
+func (v *VerifMachine) MayAppendDelim(b []byte, next Kind) []byte {
+	return v.m.MayAppendDelim(b, next)
+}
+func (v *VerifMachine) DisableNamespace()             { v.m.Last.DisableNamespace() }
+func (v *VerifMachine) InvalidateDisabledNamespaces() { v.m.InvalidateDisabledNamespaces() }
+
+// VerifErrClass maps the state machine's sentinel errors to small integers:
+// 0 nil, 1 ErrNonStringName, 2 errInvalidNamespace, 3 errMaxDepth, 4 errMismatchDelim, 5 errMissingValue, 9 other.
+func VerifErrClass(err error) int {
+	switch err {
+	case nil:
+		return 0
+	case ErrNonStringName:
+		return 1
+	case errInvalidNamespace:
+		return 2
+	case errMaxDepth:
+		return 3
+	case errMismatchDelim:
+		return 4
+	case errMissingValue:
+		return 5
+	}
+	return 9
+}
+
+// VerifNamespace drives one objectNamespace (linear mode up to 64 names / 1024 bytes, then a map).
+type VerifNamespace struct{ ns objectNamespace }
+
+func (v *VerifNamespace) Reset()                   { v.ns.reset() }
+func (v *VerifNamespace) Length() int              { return v.ns.length() }
+func (v *VerifNamespace) GetUnquoted(i int) []byte { return v.ns.getUnquoted(i) }
+func (v *VerifNamespace) InsertQuoted(name []byte, verbatim bool) bool {
+	return v.ns.insertQuoted(name, verbatim)
+}
+func (v *VerifNamespace) InsertUnquoted(name []byte) bool { return v.ns.InsertUnquoted(name) }
+func (v *VerifNamespace) RemoveLast()                     { v.ns.removeLast() }
+func (v *VerifNamespace) UsesMap() bool                   { return v.ns.mapNames != nil }
+
+// VerifKindNormalize exposes Kind.normalize.
+func VerifKindNormalize(k Kind) Kind { return k.normalize() }
